@@ -294,4 +294,71 @@ theorem seqPlace_terminates (vr : VR) (cs : List Constraint) (m : Machine)
             simp only [hP, hS, bind, Except.bind] at this ⊢
             exact this
 
+/-! ### non-vacuity: a problem with a same-chip group whose two members are both pinned (to the
+same chip), a global reservation, a resource exception, a custom vertex order and chip order
+satisfies every hypothesis, and both placers succeed on it -/
+section example_
+open Vtx Constraint
+
+private def exVR : VR := [(o 0, [1, 0]), (o 1, [1, 2]), (o 2, [0, 1])]
+private def exCS : List Constraint := [same [o 0, o 1], loc (o 1) (1, 0), reserve 1 1 none, loc (o 0) (1, 0)]
+private def exM : Machine := { w := 2, h := 1, res := [5, 8], exc := [((0, 0), [1, 2])], dead := [] }
+
+private theorem dem_nonneg_of_all (d : Res) (h : ∀ x ∈ d, 0 ≤ x) (i : Nat) : 0 ≤ dem d i := by
+  induction d generalizing i with
+  | nil => simp [dem]
+  | cons x xs ih =>
+    cases i with
+    | zero => simpa [dem] using h x (by simp)
+    | succ j => rw [dem_cons_succ]; exact ih (fun y hy => h y (by simp [hy])) j
+
+private theorem exWF : WF exVR exCS exM where
+  nodup := by decide
+  original := by
+    refine ⟨fun v hv => ?_, fun c hc => ?_⟩
+    · simp [exVR, keys] at hv; rcases hv with rfl | rfl | rfl <;> trivial
+    · simp [exCS] at hc
+      rcases hc with rfl | rfl | rfl | rfl
+      · intro v hv; simp at hv; rcases hv with rfl | rfl <;> trivial
+      · trivial
+      · trivial
+      · trivial
+  nonnegVR := by
+    intro v d h i
+    apply dem_nonneg_of_all
+    simp [exVR] at h
+    rcases h with ⟨_, rfl⟩ | ⟨_, rfl⟩ | ⟨_, rfl⟩ <;> intro x hx <;> simp at hx <;> omega
+  nonnegCap := by
+    intro c _ i
+    apply dem_nonneg_of_all
+    simp only [cap, exM, aget]
+    split <;> intro x hx <;> simp at hx <;> omega
+
+private theorem exCons : Consistent exVR exCS := by
+  intro vr' cs' subs h
+  have e : applySame exVR exCS = .ok ([(o 2, [0, 1]), (m 0, [2, 2])],
+      [same [m 0, m 0], loc (m 0) (1, 0), reserve 1 1 none, loc (m 0) (1, 0)], [[o 0, o 1]]) := by rfl
+  rw [e] at h; injection h with h; injection h with h1 h2; injection h2 with h2 h3
+  subst h2
+  intro v c c' hc hc'
+  simp at hc hc'
+  rw [hc.2, hc'.2]
+
+private theorem exEmpty : EmptyOK exVR exCS exM := by
+  intro h; simp [exVR] at h
+
+example : Feasible exVR exCS exM [(o 2, (1, 0)), (o 0, (1, 0)), (o 1, (1, 0))] :=
+  seqPlace_sound exVR exCS exM (some [o 2, o 1, o 0]) (some [(1, 0), (0, 0)]) _ exWF exCons exEmpty
+    (by intro vo h v hv; injection h with h; subst h; simp [exVR, keys] at hv; rcases hv with rfl | rfl | rfl <;> simp)
+    (by rfl)
+
+example : Feasible exVR exCS exM [(o 2, (1, 0)), (o 0, (1, 0)), (o 1, (1, 0))] :=
+  randPlace_sound exVR exCS exM [(1, 0), (0, 0)] _ exWF exCons (by rfl)
+
+/-- the specification is not trivially true: the same problem with every vertex on the small chip -/
+example : ¬ Feasible exVR exCS exM [(o 2, (0, 0)), (o 0, (0, 0)), (o 1, (0, 0))] := by
+  rw [← validPlacement_iff]; decide
+
+end example_
+
 end Rig.C02
